@@ -47,6 +47,48 @@ def si_coherent(env, dimension):
     return unit
 
 
+def abandoned_questions_first(ctx, env, m, orc):
+    """before anything else has been planned: questions the planner gives up on half-way (a named unit of a derived
+    dimension combined with its inverse spelled in fundamental units, compared with or converted to something of the same
+    total dimension - the search pairs up factors of different dimensions and abandons), each followed at once by
+    first-time conversions between units that declarations do connect.  Whatever the abandoned question answers, those
+    conversions must work"""
+    derived = [n for n in env.pools.plain_names if sum(abs(e) for e in env.mdl.dim_of_unit(env.pools.units[n])) > 1]
+    ctx.rng.shuffle(derived)
+    physical = [n for n in env.pools.plain_names if any(env.mdl.dim_of_unit(env.pools.units[n])) and n != "donkeypower"]
+    for xname in derived[: (60 if ctx.tier == "quick" else 400)]:
+        X = env.pools.units[xname]
+        try:
+            inv = m.One
+            for i_, e_ in enumerate(env.mdl.dim_of_unit(X)):
+                if e_:
+                    inv = inv * env.pools.units[ctx.rng.choice(env.pools.fund[i_])] ** (-e_)
+        except Exception:
+            continue
+        asks = [lambda: (1 * X * inv) == (1e12 * m.One), lambda: (2 * X * inv).in_unit(m.One), lambda: (1 * X * inv) < (3 * m.One),
+                lambda: (1 * X * inv**2).in_unit(inv), lambda: (1 * X) == (3 * inv**-1), lambda: (1 * X**2 * inv).in_unit(X)]
+        for ask in ctx.rng.sample(asks, 3):
+            try:
+                ask()
+                ctx.count("connectivity/abandoned_questions_first/answered")
+            except Exception as e:
+                ctx.count(f"connectivity/abandoned_questions_first/{type(e).__name__}")
+            involved = [f_ for f_ in list(inv.factors) + [X] if f_ is not m.One]
+            for f_ in involved + [env.pools.units[n_] for n_ in ctx.rng.sample(physical, 2)]:
+                peers = [n_ for n_ in env.pools.by_dim.get(env.mdl.dim_of_unit(f_), []) if env.pools.units[n_] is not f_ and n_ != "donkeypower"]
+                for pn in ctx.rng.sample(peers, min(2, len(peers))):
+                    g_ = env.pools.units[pn]
+                    for a_, b_ in ((f_, g_), (g_, f_)):
+                        try:
+                            (1.0 * a_).in_unit(b_)
+                            ctx.count("connectivity/after_an_abandoned_question/converted")
+                        except Exception as e:
+                            ctx.count(f"connectivity/after_an_abandoned_question/{type(e).__name__}")
+                            if orc.ratio(a_, b_) is not None and sum(abs(x_) for x_ in env.mdl.dim_of_unit(a_)) == 1:
+                                # (units of a fundamental dimension: every pair of them converts on the unchanged tree)
+                                ctx.violation(f"C09:not-connected:{uname(a_)}", f"(1*{uname(a_)}).in_unit({uname(b_)}) raised {type(e).__name__} right after an unrelated question the "
+                                              f"planner gave up on (about {xname}): {e}", {"unit": uname(a_), "target": uname(b_), "after": xname})
+
 def run(ctx):
     env = kit.Env(ctx)
     b, orc, m = env.b, env.orc, env.m
@@ -106,6 +148,7 @@ def run(ctx):
 
     # 3. connectivity: every named unit with a physical dimension converts to and from coherent SI
     mon = convmon.ConvertMonitor(env, ctx, key_prefix="C09")
+    abandoned_questions_first(ctx, env, m, orc)
     si_names = {"meter", "second", "kilogram", "gram", "kelvin", "coulomb", "mole", "candela", "bit", "one"}
     for name in env.pools.unit_names:
         u = env.pools.units[name]
